@@ -13,6 +13,7 @@ import (
 	"math"
 	"os"
 	"strconv"
+	"sync"
 	"time"
 )
 
@@ -219,3 +220,7 @@ func Jitter() {
 // RegisterWatcher tells the symbolic fsnotify stub which channel its watcher hands out (no effect natively,
 // where the real watcher observes real files).
 func RegisterWatcher(events interface{}, done interface{}) {}
+
+// Protect declares that object (a map or a pointer) may only be touched by a goroutine that holds mu
+// (lock-discipline check of the symbolic concurrent runs; no effect natively, where `go test -race` applies).
+func Protect(object interface{}, mu *sync.Mutex) {}
